@@ -458,16 +458,16 @@ def Size5 (n : Nat) : Prop :=
     later write of the low byte combines with the high byte of the reduced value.  For a power-of-two
     bank count up to 512 this is the documented `(hi<<8 | lo) mod n`. -/
 theorem mbc5_lo {n hi lo v : Nat} (hn : Size5 n) (_hhi : hi < 2) (hlo : lo < 256) (hv : v < 256) :
-    ((((hi * 256 + lo) % n) &&& 0xff00) + v) % 65536 % (n % 65536) = (hi * 256 + v % 256) % n := by
+    ((((hi * 256 + lo) % n) &&& 0xff00) + v) % 65536 % n % 65536 = (hi * 256 + v % 256) % n := by
   have hlt : (hi * 256 + lo) % n < 512 := by
     rcases hn with h|h|h|h|h|h|h|h|h <;> subst h <;> omega
   rw [and_ff00_lt512 _ hlt]
-  rcases hn with h|h|h|h|h|h|h|h|h <;> subst h <;> simp only [Nat.reduceMod] <;> omega
+  rcases hn with h|h|h|h|h|h|h|h|h <;> subst h <;> omega
 
 theorem mbc5_hi {n hi lo v : Nat} (hn : Size5 n) (_hhi : hi < 2) (hlo : lo < 256) (_hv : v < 256) :
-    (((v <<< 8) % 65536) + (((hi * 256 + lo) % n) &&& 0x00ff)) % 65536 % (n % 65536) = (v % 2 * 256 + lo) % n := by
+    (((v <<< 8) % 65536) + (((hi * 256 + lo) % n) &&& 0x00ff)) % 65536 % n % 65536 = (v % 2 * 256 + lo) % n := by
   rw [shl8, and_ff]
-  rcases hn with h|h|h|h|h|h|h|h|h <;> subst h <;> simp only [Nat.reduceMod] <;> omega
+  rcases hn with h|h|h|h|h|h|h|h|h <;> subst h <;> omega
 
 structure Rel5 (rom : Rom) (n q : Nat) (h : Hist) (m : Mbc5) : Prop where
   rom : m.rom = rom
@@ -485,8 +485,8 @@ theorem mbc5_step {rom : Rom} {n q : Nat} {h : Hist} {m : Mbc5} (hn : Size5 n) (
     (R : Rel5 rom n q h m) (a v : Nat) (hv : v < 256) :
     ∃ m', Mbc5.write m a v = some m' ∧ Rel5 rom n q (.write a v :: h) m' := by
   obtain ⟨Rrom, Rn, Rq, Rram, Ren, Rrb, Rrk⟩ := R
-  have hn0 : 0 < n % 65536 := by rcases hn with h|h|h|h|h|h|h|h|h <;> subst h <;> decide
-  have hr : 0 < m.romLen % 65536 := by rw [Rn]; exact hn0
+  have hn0 : 0 < n := by rcases hn with h|h|h|h|h|h|h|h|h <;> subst h <;> decide
+  have hr : 0 < m.romLen := by rw [Rn]; exact hn0
   have hqq : 0 < m.ramLen % 256 := by rw [Rq]; omega
   have k5 : Std135 .mbc5 := Or.inr (Or.inr rfl)
   have Rrb' : m.romBank = (mbc5Hi h * 256 + mbc5Lo h) % n := by
@@ -499,13 +499,13 @@ theorem mbc5_step {rom : Rom} {n q : Nat} {h : Hist} {m : Mbc5} (hn : Size5 n) (
       cell_out, enableBit_eq, romBank, if_neg, Rrom, Rn, Rq, Rram, Rrb', Rrk]
   by_cases c2 : a < 0x3000
   · refine ⟨{ m with romBank := (mbc5Hi h * 256 + v % 256) % n }, ?_, ?_⟩
-    · simp only [Mbc5.write, if_neg c1, if_pos c2]; rw [mod?_pos hr, Rn, Rrb', mbc5_lo hn H L hv]; rfl
+    · simp only [Mbc5.write, if_neg c1, if_pos c2]; rw [mod?_pos hr, Rn, Rrb']; simp only [Option.bind_some, mbc5_lo hn H L hv]
     · constructor <;> simp (disch := omega) only [mbc5RomReg, mbc5Lo_in, mbc5Hi_out, ramSelect_out,
         enabled_out k5, cell_out, romBank, if_neg, Rrom, Rn, Rq, Rram, Ren, Rrk]
   by_cases c3 : a < 0x4000
   · refine ⟨{ m with romBank := (v % 2 * 256 + mbc5Lo h) % n }, ?_, ?_⟩
     · simp only [Mbc5.write, if_neg c1, if_neg c2, if_pos c3]
-      rw [mod?_pos hr, Rn, Rrb', mbc5_hi hn H L hv]; rfl
+      rw [mod?_pos hr, Rn, Rrb']; simp only [Option.bind_some, mbc5_hi hn H L hv]
     · constructor <;> simp (disch := omega) only [mbc5RomReg, mbc5Lo_out, mbc5Hi_in, ramSelect_out,
         enabled_out k5, cell_out, romBank, if_neg, Rrom, Rn, Rq, Rram, Ren, Rrk]
   by_cases c4 : a < 0x6000
